@@ -118,7 +118,7 @@ class Calls(object):
             # local assigned once from a constructor call
             asg = norm.assigned_names(func.node).get(expr.id)
             if asg and len(asg) == 1 and isinstance(asg[0], ast.Call):
-                r = self.prog.resolve_expr(func.module, asg[0].func, func.cls) \
+                r = self.prog.resolve_in_func(func, asg[0].func) \
                     if isinstance(asg[0].func, (ast.Name, ast.Attribute)) else None
                 if r is not None and r[0] == "class":
                     return [r[1]]
@@ -162,7 +162,7 @@ class Calls(object):
             local = norm.assigned_names(func.node)
             if name in local:
                 return Resolution([], "unresolved", name)
-            r = prog.resolve_name(func.module, name, func.cls)
+            r = prog.resolve_in_func(func, f)
             if r is None:
                 if name in BUILTIN_NAMES:
                     return Resolution([], "external", name)
@@ -211,7 +211,7 @@ class Calls(object):
                 root = root.value
             if isinstance(root, ast.Name) and root.id != "self" \
                     and root.id not in norm.assigned_names(func.node):
-                r = prog.resolve_expr(func.module, f, func.cls)
+                r = prog.resolve_in_func(func, f)
                 if r is not None:
                     if r[0] == "func":
                         return Resolution([r[1]], "exact", name)
@@ -220,7 +220,7 @@ class Calls(object):
                         return Resolution([init] if init else [], "exact", name)
                     if r[0] == "external":
                         return Resolution([], "external", name)
-                rb = prog.resolve_expr(func.module, recv, func.cls)
+                rb = prog.resolve_in_func(func, recv)
                 if rb is not None and rb[0] == "external":
                     return Resolution([], "external", name)
         # typed receiver
